@@ -341,11 +341,21 @@ def _r164(ctx: Ctx) -> None:
 
     class HFss(Hooks):
         def call(self, it, func, args, kwargs, node, env):
+            def bound(f_, a_, k_):
+                """positional view of a call, keyword arguments slotted into their parameters' positions"""
+                names_ = [x.arg for x in f_.fn.args.args]
+                out_ = list(a_)
+                for nm_ in names_[len(a_):]:
+                    if nm_ in k_:
+                        out_.append(k_[nm_])
+                    else:
+                        break
+                return out_
             if isinstance(func, _Clo) and getattr(func.fn, 'name', '') == 'get_fit_params':
-                calls.append(('fit', args, kwargs))
+                calls.append(('fit', bound(func, args, kwargs), kwargs))
                 return Sym('params_opt')
             if isinstance(func, _Clo) and getattr(func.fn, 'name', '') == 'rescale_prob':
-                calls.append(('rescale', args, kwargs))
+                calls.append(('rescale', bound(func, args, kwargs), kwargs))
                 return CT('rescaled')
             if isinstance(func, Ext) and (func.name.startswith('numpy') or func.name.startswith('pandas')
                                           or func.name == 'builtins.print'):
@@ -370,6 +380,9 @@ def _r164(ctx: Ctx) -> None:
             return args[0]
         if isinstance(func, Ext) and func.name == 'builtins.range':
             return TOP
+        if isinstance(func, Ext) and func.name == 'builtins.zip' and args and all(isinstance(a, CT) for a in args):
+            # rows of several columns walked together: one generic row, each entry the element of its own column
+            return [tuple(CT('item', a, 'row') for a in args)]
         return _base_call(self, it, func, args, kwargs, node, env)
     HFss.call = _call2
     it = Interp(m, HFss())
@@ -385,6 +398,8 @@ def _r164(ctx: Ctx) -> None:
     ctx.need(good, 'R16.4', site_of(ami, ffp), f'fit_fss_params: {outs[:2]!r}')
     fits = [c for c in good[0].value if c[0] == 'fit']
     ctx.need(fits, 'R16.4', site_of(ami, ffp), 'fit_fss_params: call of get_fit_params not found')
+    ctx.need(len(fits[0][1]) >= 3, 'R16.4', site_of(ami, ffp), f'fit_fss_params: arguments of get_fit_params not followed '
+                                                               f'({fits[0][1]!r}, {fits[0][2]!r})')
     pl, dl, fl = fits[0][1][:3]
 
     def base_of(t):
@@ -407,7 +422,9 @@ def _r164(ctx: Ctx) -> None:
     # bootstrap: the Beta posterior of each row uses that row's own counts, read from the fitted (truncated) table
     betas = [c for c in good[0].value if c[0] == 'beta']
     ctx.need(betas, 'R16.4', site_of(ami, ffp), 'fit_fss_params: rng.beta(...) of the bootstrap not found')
-    a_, b_ = betas[0][1][:2]
+    ba = list(betas[0][1]) + [betas[0][2][k_] for k_ in ('a', 'b')[len(betas[0][1]):] if k_ in betas[0][2]]
+    ctx.need(len(ba) >= 2, 'R16.4', site_of(ami, ffp), f'fit_fss_params: arguments of rng.beta not followed ({betas[0]!r})')
+    a_, b_ = ba[:2]
     ctx.need(a_ is not TOP and b_ is not TOP, 'R16.4', site_of(ami, ffp), 'fit_fss_params: arguments of rng.beta not understood')
     fa = [_frame_of(x) for x in _leaf_cols(a_)]
     fb = [_frame_of(x) for x in _leaf_cols(b_)]
